@@ -343,7 +343,10 @@ task_histories.contract_fn = "knotspace.KnotVector"
 # --------------------------------------------------------------------------------------
 TYPE_TABLE = [("str-0011", "0011"), ("None", None), ("list-of-str", ["a", "b", "c", "d"]), ("int", 3), ("nested", [[0, 0], [1, 1]]),
               ("dict", {0: 1}), ("mixed", [0, 0, "x", 1]), ("empty", []), ("one", [1]), ("list-None", [None, None]),
-              ("complex", [0j, 0j, 1j, 1j]), ("generator-ok", (x for x in [0, 0, 1, 1]))]
+              ("complex", [0j, 0j, 1j, 1j]), ("generator-ok", (x for x in [0, 0, 1, 1])),
+              # unsorted data in numpy kinds whose differences do not go negative (unsigned) or do not compare (NaN)
+              ("uint8-unsorted", np.array([0, 0, 2, 1, 3, 3], dtype=np.uint8)), ("uint64-unsorted", np.array([0, 0, 5, 3, 7, 7], dtype=np.uint64)),
+              ("nan-interior", [0.0, 0.0, float("nan"), 1.0, 1.0]), ("float-unsorted-array", np.array([0.0, 0.0, 0.7, 0.2, 1.0, 1.0]))]
 
 
 def task_types():
